@@ -420,6 +420,12 @@ impl CliRejects {
                 if fmt != Format::Gambit {
                     return Err("not-applicable");
                 }
+                if r.coin(0.3) {
+                    // one player only (the payoff lists keep two entries: the parser objects, or the
+                    // binary does; either way it is not a two-player game)
+                    let t = text.replacen("{ \"one\" \"two\" }", "{ \"one\" }", 1);
+                    return Ok(vec![one(t.into_bytes(), "file_semantic_gambit_one_player", Some(vec!["only supports two player games", "#gambit-error"]))]);
+                }
                 // three players: header and every payoff list get a third entry
                 let mut t = text.replacen("{ \"one\" \"two\" }", "{ \"one\" \"two\" \"three\" }", 1);
                 let mut out = String::new();
